@@ -107,6 +107,15 @@ CLAIMED.update({
     },
 })
 
+CLAIMED.update({
+    "C05": {
+        "text": "Coq theorems (closed under the global context) over the model of SourceFileAnalyzer::analyze, for EVERY file text (lines valid UTF-8): one token list and one range record per file line (C05_shape); token class ranges ordered and non-overlapping (C05_tokens); every BASIC-line binding of the source map names an existing file line (C05_bindings); every diagnostic that maps to a source position maps to an existing file line and a byte range inside that line on character boundaries, whether located by token, by line number or by the tokenizer's error range - an illegal multi-byte character is covered whole (C05_diag, with C05_pass1_messages and the new lexer theorem C05_error_range_end); proved as an inductive invariant of pass 1 on top of C13's range theorems. Totality (an_result is neither Panic nor OutOfFuel, every walk-phase message maps) is validated: the model's result, messages, mapped ranges and token classes must equal the implementation's on every generated file, and the implementation runs under catch_unwind with the well-formedness oracle.",
+        "design_ref": "DESIGN.md 6 C05",
+        "note": NOTE + "PARTIAL: C05_total (no panic / termination of the walk) is validated by correspondence and oracle, not proved (it needs a safety invariant for the analyzer fork of the evaluators).",
+        "technique": "Coq proof: inductive invariant over the per-line pass of the analyzer + tokenizer range theorems; differential correspondence of complete analyses + well-formedness oracle under catch_unwind",
+    },
+})
+
 _TODO = "check under construction in this session; not claimed until its theorems and correspondence are in place"
-NOT_CLAIMED = {p: _TODO for p in ["C03", "C05", "C06",
+NOT_CLAIMED = {p: _TODO for p in ["C03", "C06",
                                   "C15", "C19", "C20"]}
